@@ -25,6 +25,55 @@ def kwargs_for(h):
     return kw
 
 
+def direct_dotdot_path(ck, tf):
+    """the database is the FILE IT WAS OPENED WITH, however the path is spelled: through `<symbolic link to a directory>/../db.csv` (the kernel resolves
+    `..` through the link's target; a lexical normalisation names another file), through a symbolic link to the file, through `./x/../db.csv`; after
+    rewrites and further inserts the file named at open holds the contents, and no other file appeared"""
+    import iotie
+    import os
+    import tempfile
+    from datetime import datetime, timedelta, timezone
+    t0 = datetime(2020, 1, 1, tzinfo=timezone.utc)
+    n = 0
+    for spelling in ("link/..", "filelink", "plain/.."):
+        for auto in (True, False):
+            d = tempfile.mkdtemp(dir=str(ck.work))
+            os.makedirs(os.path.join(d, "real", "sub"))
+            os.makedirs(os.path.join(d, "work", "plain"))
+            os.symlink(os.path.join(d, "real", "sub"), os.path.join(d, "work", "link"))
+            if spelling == "link/..":
+                path, target = os.path.join(d, "work", "link", "..", "db.csv"), os.path.join(d, "real", "db.csv")
+            elif spelling == "filelink":
+                target = os.path.join(d, "real", "db.csv")
+                open(target, "w").close()
+                path = os.path.join(d, "work", "db.csv")
+                os.symlink(target, path)
+            else:
+                path, target = os.path.join(d, "work", "plain", "..", "db.csv"), os.path.join(d, "work", "db.csv")
+            listing = lambda: sorted(os.path.relpath(os.path.join(r_, f_), d) for r_, _, fs in os.walk(d) for f_ in fs)
+            db = tf.TinyFlux(path, auto_index=auto)
+            try:
+                db.insert_multiple([tf.Point(time=t0 + timedelta(seconds=i), measurement="m", tags={"k": str(i)}, fields={"a": float(i)}) for i in range(3)])
+                files_before = listing()
+                db.remove(tf.TagQuery().k == "0")
+                db.insert(tf.Point(time=t0 + timedelta(seconds=5), measurement="m", tags={"k": "5"}, fields={"a": 5.0}))
+                db.update(tf.TagQuery().k == "1", fields={"a": 9.0})
+                live = sorted((p.tags["k"], p.fields["a"]) for p in db.all())
+            finally:
+                db.close()
+            n += 1
+            pts = iotie.decode_bytes(iotie.read_file(target), None, {})
+            got = None if pts is None else sorted((p["tags"].get("k"), p["fields"].get("a")) for p in pts)
+            want = [("1", 9.0), ("2", 2.0), ("5", 5.0)]
+            if got != want or live != want or listing() != files_before:
+                ck.violation({"kind": "failing-input", "path_spelling": spelling, "opened_as": os.path.relpath(path, d) if spelling != "link/.." else "work/link/../db.csv  (work/link -> real/sub)",
+                              "auto_index": auto, "steps": "insert 3 points k=0,1,2; remove(k == '0'); insert k=5; update(k == '1', a=9)", "the_file_opened_decodes_to (k, a)": got,
+                              "the_live_object_answers": live, "documented_contents": want, "files_before_the_rewrites": files_before, "files_after": listing(),
+                              "why": "after rewrites the file the database was opened with does not hold the database's contents (or another file appeared)"})
+                return {"path_spellings_checked": n}
+    return {"path_spellings_checked": n}
+
+
 def direct_long_name(ck, tf):
     """a database whose file name is so long that a sibling file with a suffix cannot be created (the staged rewrite needs one): whatever a rewriting
     operation does there - complete or raise - a call that RETURNED has left its result in the file (oracle-free: the file is decoded by the
@@ -77,5 +126,5 @@ def main(tier, seed):
                           "text of time / number cells and the csv module are standard-library behaviour (oracle pairs with round-trip hypotheses); "
                           "encodings are the text layer's (the file is decoded with the configured encoding by an independent reader)",
                           configs=[(True, True), (True, False)], kwargs_for=kwargs_for,
-                          pre=lambda: run_translator("py2coq_io.py", "tinyflux/storages.py", "gen/IOGen.v", refused), direct=direct_long_name,
+                          pre=lambda: run_translator("py2coq_io.py", "tinyflux/storages.py", "gen/IOGen.v", refused), direct=lambda ck, tf: (direct_long_name(ck, tf), direct_dotdot_path(ck, tf)),
                           extra_cov={"translator_storage_scripts": dict(IO_TRANSLATOR_COV, refused=refused)})
